@@ -329,7 +329,7 @@ func runC09(c *CheckCtx) {
 
 func init() {
 	register(&Property{
-		ID: "C10", Level: "other", Technique: "contract-based deductive verification of per-thread obligations: ghost counters (Apply called once, one outcome sent) on the goroutine closure, chan/redeposit (deref puts back exactly what it received), flag/monotone (only true is ever stored to Done/Cancelled), publish/order (Done already true when the outcome is sent), race/shared-field (status fields accessed without synchronisation), Cancel's sequential contract; schedule-quantified claims by argument only",
+		ID: "C10", Level: "other", Technique: "contract-based deductive verification of per-thread obligations: ghost counters (Apply called once, one outcome sent) on the goroutine closure, chan/redeposit (deref puts back exactly what it received), chan/single-depositor (no other function sends on the outcome channels), flag/monotone (only true is ever stored to Done/Cancelled), publish/order (Done already true when the outcome is sent), race/shared-field (status fields accessed without synchronisation), Cancel's sequential contract; schedule-quantified claims by argument only",
 		DesignRef: "DESIGN.md §4 C10",
 		Explain:   "partial: obligations on each thread's code; no interleaving semantics in the verifier",
 		Run:       runC10,
